@@ -170,6 +170,32 @@ theorem C01_seek_first_fixed : C01_seek_first true := by
   exact (filter_ge_eq_dropLt t
     (pmFold_sorted rs r (h r (by simp)).1 (h r (by simp)).2 (fun q hq => (h q (by simp [hq])).2))).symm
 
+/-! ### int64 -/
+
+/-- the value fits Go's `int64` -/
+def InInt64 (x : Int) : Prop := -9223372036854775808 ≤ x ∧ x ≤ 9223372036854775807
+
+/-- **no_overflow.**  With all timestamps of magnitude below `2^59` every value
+    `dedupSeriesIterator.Next` computes from the last emitted timestamp `lastT` (the sentinel
+    `math.MinInt64` or an earlier sample's timestamp) and the chosen sample's timestamp `t` —
+    the difference, the penalty `2 * (t - lastT)` or `initialPenalty`, and both `Seek` targets
+    `t + 1` and `t + 1 + penalty` — fits `int64`, so the `Int` model and the Go code coincide. -/
+theorem C01_no_overflow (lastT t : Int)
+    (hl : lastT = minT ∨ (-576460752303423488 < lastT ∧ lastT < 576460752303423488))
+    (ht : -576460752303423488 < t ∧ t < 576460752303423488) :
+    (lastT ≠ minT → InInt64 (t - lastT)) ∧ InInt64 (pen lastT t) ∧ InInt64 (t + 1) ∧
+    InInt64 (t + 1 + pen lastT t) ∧ InInt64 (lastT + 1) := by
+  rcases hl with rfl | hl
+  · have hp : pen minT t = 5000 := by simp [pen, initialPenalty]
+    rw [hp]
+    unfold InInt64 minT
+    refine ⟨fun h => absurd rfl h, ?_, ?_, ?_, ?_⟩ <;> omega
+  · have hne : lastT ≠ minT := by simp only [minT]; omega
+    have hp : pen lastT t = 2 * (t - lastT) := by simp [pen, hne]
+    rw [hp]
+    unfold InInt64
+    refine ⟨fun _ => ?_, ?_, ?_, ?_, ?_⟩ <;> omega
+
 /-! ### non-vacuity -/
 
 example : ValidReplicas [⟨10000, 1⟩, ⟨20000, 2⟩, ⟨30000, 3⟩] [[⟨5000, 4⟩, ⟨15000, 5⟩, ⟨25000, 6⟩], [⟨7000, 7⟩, ⟨27000, 9⟩]] := by
